@@ -347,10 +347,13 @@ def rename(args: Namespace) -> str:
     if not target or not os.path.exists(target):
         raise FileNotFoundError  # pragma: nocover
     meta = pyben.load(target)
-    name = meta["info"]["name"]
+    # only the file name changes: the metafile stays in its directory
+    name = os.path.basename(str(meta["info"]["name"]).rstrip("/"))
+    if name in ("", ".", ".."):
+        raise ValueError(meta["info"]["name"])  # pragma: nocover
     parent = os.path.dirname(target)
     new_path = os.path.join(parent, name + ".torrent")
-    if os.path.exists(new_path):
+    if os.path.lexists(new_path):
         raise FileExistsError  # pragma: nocover
     os.rename(target, new_path)
     return new_path
